@@ -75,8 +75,20 @@ def run_case(ctx, S, a, b, m, tag, reuse=None):
         else:
             s = S.LinearScale().domain([a, b])
         _REUSE["scale"] = s
-        ticks = list(s.ticks(m)) if m is not None else list(s.ticks())
-        fmt = s.tickFormat(m) if m is not None else s.tickFormat()
+        if reuse == "float-count" and m is not None:
+            m = float(m)  # a count given as a float with an integral value is the same count
+            ctx.path("float-count")
+        if reuse == "ticks-held-across-nice":
+            # the result of ticks() is taken first, looked at only after nice() moved the domain: it belongs to the
+            # domain the scale had when it was asked
+            held = s.ticks(m) if m is not None else s.ticks()
+            fmt = s.tickFormat(m) if m is not None else s.tickFormat()
+            s.nice(m) if m is not None else s.nice()
+            ticks = list(held)
+            ctx.path("ticks-held-across-nice")
+        else:
+            ticks = list(s.ticks(m)) if m is not None else list(s.ticks())
+            fmt = s.tickFormat(m) if m is not None else s.tickFormat()
         texts = [fmt(t) for t in ticks]
     except Exception as e:
         ctx.judge(tag, VIOLATED, case, finding="raised %s: %s" % (type(e).__name__, e), key="raised")
@@ -113,7 +125,7 @@ def worker(ctx, shard):
     rng = ctx.rng("ticks%d" % shard["sub"])
     for _ in range(shard["n"]):
         a, b, m, tag = lin.gen_domain(rng)
-        run_case(ctx, S, a, b, m, tag, reuse=rng.choice([None, None, None, "same-object", "copy", "ticks-then-nice", "ticks-then-nice-other-count", "copy-sibling-asked-first", "format-for-other-count-first"]))
+        run_case(ctx, S, a, b, m, tag, reuse=rng.choice([None, None, None, "same-object", "copy", "ticks-then-nice", "ticks-then-nice-other-count", "copy-sibling-asked-first", "format-for-other-count-first", "ticks-held-across-nice", "float-count"]))
     for k, v in cnt.items():
         ctx.event(k, v)
     p.uninstall()
